@@ -153,3 +153,74 @@ pub fn run_tsan(bin: &str, args: &[String], limit: Duration) -> (SubOutcome, Vec
 		}
 	}
 }
+
+/// Build the binary with AddressSanitizer (`-Zsanitizer=address`, nightly, explicit target) and run its whole QUICK tier
+/// under it (real hyper / soketto / tokio IO with the hostile workload of that check; leak detection off: a leak is not
+/// one of the properties). Evidence and replays of that run go to a scratch root inside the sanitizer's target directory.
+/// Returns the run's summary line as JSON; an AddressSanitizer report is a `Report`; anything else that keeps the run
+/// from completing cleanly is `Failed` (inconclusive).
+pub fn run_asan(bin: &str, id: &str, seed: u64, limit: Duration) -> SubOutcome {
+	let target_dir = harness_dir().join("target-asan");
+	let mut build = Command::new("cargo");
+	build
+		.current_dir(harness_dir())
+		.env("CARGO_NET_OFFLINE", "true")
+		.env("CARGO_TARGET_DIR", &target_dir)
+		.env("RUSTFLAGS", "-Zsanitizer=address -Cforce-frame-pointers=yes")
+		.args(["+nightly", "build", "--offline", "--target", "x86_64-unknown-linux-gnu", "--bin", bin]);
+	match run_with_timeout(build, Duration::from_secs(1800)) {
+		Err(e) => return SubOutcome::Failed(format!("asan build: {e}")),
+		Ok((code, _o, e)) if code != 0 => {
+			let tail: String = e.lines().rev().take(25).collect::<Vec<_>>().into_iter().rev().collect::<Vec<_>>().join("\n");
+			return SubOutcome::Failed(format!("asan build failed: {tail}"));
+		}
+		Ok(_) => {}
+	}
+	let root = target_dir.join(format!("root-{bin}"));
+	let _ = std::fs::create_dir_all(&root);
+	let _ = std::fs::copy(crate::report::verif_root().join("known_findings.json"), root.join("known_findings.json"));
+	let exe = target_dir.join("x86_64-unknown-linux-gnu").join("debug").join(bin);
+	let mut cmd = Command::new(exe);
+	cmd.current_dir(harness_dir())
+		.env("ASAN_OPTIONS", "detect_leaks=0:halt_on_error=1:abort_on_error=0:exitcode=77")
+		.env("VERIF_ROOT", &root)
+		.env("VERIF_SEED", seed.to_string())
+		.arg("quick");
+	match run_with_timeout(cmd, limit) {
+		Err(e) => SubOutcome::Failed(format!("asan run: {e}")),
+		Ok((code, out, err)) => {
+			if err.contains("ERROR: AddressSanitizer") || code == 77 {
+				let start = err.find("ERROR: AddressSanitizer").unwrap_or(0);
+				let excerpt: String = err[start..].chars().take(3000).collect();
+				return SubOutcome::Report { frame: first_repo_frame(&excerpt), excerpt };
+			}
+			let summary = out.lines().rev().find(|l| l.starts_with(&format!("{id} quick "))).unwrap_or("").to_string();
+			let num = |key: &str| summary.split_whitespace().find_map(|t| t.strip_prefix(key)).and_then(|v| v.parse::<u64>().ok());
+			if code == 0 && !summary.is_empty() {
+				SubOutcome::Clean(serde_json::json!({"tier": "quick", "evaluations": num("evaluations="), "distinct_nontrivial": num("distinct_nontrivial="), "summary": summary}))
+			} else {
+				let tail: String = out.lines().rev().take(6).collect::<Vec<_>>().into_iter().rev().collect::<Vec<_>>().join(" | ");
+				SubOutcome::Failed(format!("asan run: exit code {code} without an AddressSanitizer report: {tail}"))
+			}
+		}
+	}
+}
+
+/// Merge the outcome of an ASan sub-run into a check's evidence / violations; returns an inconclusive reason if any.
+pub fn merge_asan(out: SubOutcome, ev: &mut crate::report::Evidence, violations: &mut Vec<crate::report::Violation>) -> Option<String> {
+	match out {
+		SubOutcome::Clean(v) => {
+			ev.set("asan", serde_json::json!({"status": "no report", "workload": v}));
+			None
+		}
+		SubOutcome::Report { excerpt, frame } => {
+			violations.push(crate::report::Violation::new(format!("asan:{frame}"), "AddressSanitizer reported a memory error", serde_json::json!({"excerpt": excerpt})));
+			ev.set("asan", serde_json::json!({"status": "report"}));
+			None
+		}
+		SubOutcome::Failed(why) => {
+			ev.set("asan", serde_json::json!({"status": "inconclusive", "why": why}));
+			Some("AddressSanitizer sub-run did not complete".into())
+		}
+	}
+}
